@@ -19,7 +19,8 @@ Record tcore := {
   ts_extensions : list (bytes * bytes); ts_compression : Z;
   ts_decryptor : option decryptor;
   ts_hs_client : bytes; ts_hs_server : bytes;
-  ts_pending_client : Z; ts_pending_server : Z }.    (* handshake_pending: bytes of a fragmented plaintext handshake message still to come *)      (* handshake_buffer: decrypted TLS 1.3 handshake bytes not yet consumed as whole messages *)
+  ts_pending_client : Z; ts_pending_server : Z;      (* handshake_pending: bytes of a fragmented plaintext handshake message still to come *)
+  ts_partial_client : bytes; ts_partial_server : bytes }.   (* handshake_partial: the first bytes of a message header cut by a record boundary *)      (* handshake_buffer: decrypted TLS 1.3 handshake bytes not yet consumed as whole messages *)
 
 (* a Session: endpoint identity (fixed by the first packet), the buffered packets with the duplicate memory, and the core *)
 Record tsession := {
@@ -38,7 +39,8 @@ Definition upd (s : tcore) (can ch scc ccc : bool) (cr : bytes) (v : version_att
   {| ts_can_decrypt := can; ts_client_hello_seen := ch; ts_server_cc := scc; ts_client_cc := ccc;
      ts_client_random := cr; ts_version := v; ts_extensions := ext; ts_compression := comp;
      ts_decryptor := d; ts_hs_client := ts_hs_client s; ts_hs_server := ts_hs_server s;
-     ts_pending_client := ts_pending_client s; ts_pending_server := ts_pending_server s |}.
+     ts_pending_client := ts_pending_client s; ts_pending_server := ts_pending_server s;
+     ts_partial_client := ts_partial_client s; ts_partial_server := ts_partial_server s |}.
 Definition set_can (s : tcore) (b : bool) := upd s b (ts_client_hello_seen s) (ts_server_cc s) (ts_client_cc s) (ts_client_random s) (ts_version s) (ts_extensions s) (ts_compression s) (ts_decryptor s).
 Definition set_dec (s : tcore) (d : option decryptor) := upd s (ts_can_decrypt s) (ts_client_hello_seen s) (ts_server_cc s) (ts_client_cc s) (ts_client_random s) (ts_version s) (ts_extensions s) (ts_compression s) d.
 Definition set_hs (s : tcore) (isserver : bool) (b : bytes) : tcore :=
@@ -46,12 +48,14 @@ Definition set_hs (s : tcore) (isserver : bool) (b : bytes) : tcore :=
      ts_client_random := ts_client_random s; ts_version := ts_version s; ts_extensions := ts_extensions s; ts_compression := ts_compression s;
      ts_decryptor := ts_decryptor s;
      ts_hs_client := if isserver then ts_hs_client s else b; ts_hs_server := if isserver then b else ts_hs_server s;
-     ts_pending_client := ts_pending_client s; ts_pending_server := ts_pending_server s |}.
-Definition set_pending (s : tcore) (isserver : bool) (n : Z) : tcore :=
+     ts_pending_client := ts_pending_client s; ts_pending_server := ts_pending_server s;
+     ts_partial_client := ts_partial_client s; ts_partial_server := ts_partial_server s |}.
+Definition set_pending (s : tcore) (isserver : bool) (n : Z) (partial : bytes) : tcore :=
   {| ts_can_decrypt := ts_can_decrypt s; ts_client_hello_seen := ts_client_hello_seen s; ts_server_cc := ts_server_cc s; ts_client_cc := ts_client_cc s;
      ts_client_random := ts_client_random s; ts_version := ts_version s; ts_extensions := ts_extensions s; ts_compression := ts_compression s;
      ts_decryptor := ts_decryptor s; ts_hs_client := ts_hs_client s; ts_hs_server := ts_hs_server s;
-     ts_pending_client := if isserver then ts_pending_client s else n; ts_pending_server := if isserver then n else ts_pending_server s |}.
+     ts_pending_client := if isserver then ts_pending_client s else n; ts_pending_server := if isserver then n else ts_pending_server s;
+     ts_partial_client := if isserver then ts_partial_client s else partial; ts_partial_server := if isserver then partial else ts_partial_server s |}.
 Section Sess.
 Variable C : Crypto.
 Variable suite_table : list (Z * String.string).
@@ -163,9 +167,11 @@ Definition handle_tls_handshake_record (s : tcore) (r : tls_record) (isserver : 
        | [] => Ok (s, [])                             (* empty handshake record: ignored *)
        | t :: _ =>
            let continued := if isserver then ts_pending_server s else ts_pending_client s in
-           let index := hs_headers (S (length (r_body r))) (r_body r) continued in
-           let s := set_pending s isserver (Z.max (index - len (r_body r)) 0) in
-           if 0 <? continued then Ok (s, [])          (* the record starts inside a fragmented message: no header to dispatch on *)
+           let partial := if isserver then ts_partial_server s else ts_partial_client s in
+           let data := partial ++ r_body r in
+           let index := hs_headers (S (length data)) data continued in
+           let s := set_pending s isserver (Z.max (index - len data) 0) (slice_from data index) in
+           if (0 <? continued) || (0 <? len partial) then Ok (s, [])   (* the record starts inside a fragmented message or header *)
            else if t =? 1 then Ok (handle_tls_client_hello s r, [])
            else if t =? 2 then rmap (fun c => (c, [])) (handle_tls_server_hello s r)
            else Ok (handle_handshake_finished s r isserver)
@@ -294,7 +300,8 @@ Definition session_handle_packet (s : tsession) (p : packet) : tsession :=
 Definition core0 : tcore :=
   {| ts_can_decrypt := false; ts_client_hello_seen := false; ts_server_cc := false; ts_client_cc := false;
      ts_client_random := []; ts_version := VUndefined; ts_extensions := []; ts_compression := 0;
-     ts_decryptor := None; ts_hs_client := []; ts_hs_server := []; ts_pending_client := 0; ts_pending_server := 0 |}.
+     ts_decryptor := None; ts_hs_client := []; ts_hs_server := []; ts_pending_client := 0; ts_pending_server := 0;
+     ts_partial_client := []; ts_partial_server := [] |}.
 
 (* Session.__init__ + set_client_and_server_ports + the first handle_packet *)
 Definition new_session (p : packet) (server_ports : list Z) : tsession :=
